@@ -7,10 +7,15 @@ use bstr::{ByteSlice, ByteVec};
 /// If the path terminates in `.`, `..`, or consists solely of a root of
 /// prefix, file_name will return None.
 pub(crate) fn file_name<'a>(path: &Cow<'a, [u8]>) -> Option<Cow<'a, [u8]>> {
-    if path.last_byte().map_or(true, |b| b == b'.') {
+    if path.is_empty() {
         return None;
     }
     let last_slash = path.rfind_byte(b'/').map(|i| i + 1).unwrap_or(0);
+    // Only the components `.` and `..` have no file name. A name that merely
+    // ends with a dot (e.g., `foo.`) is a perfectly fine file name.
+    if matches!(&path[last_slash..], b"." | b"..") {
+        return None;
+    }
     Some(match *path {
         Cow::Borrowed(path) => Cow::Borrowed(&path[last_slash..]),
         Cow::Owned(ref path) => {
